@@ -48,7 +48,7 @@ LEVEL = {
  "C12": ("Theorems C12_finite(_wide), C12_infallible_wide, C12_specials, C12_back(_wide), C12_back_inf, C12_value, relative to the explicit hypothesis RyuContractWide about the float "
          "formatter's text (finite numeral with the float's sign, at most 34 written / 17 significant digits, small exponent, rounds to the float): the decimal is the exact encoding of that "
          "text's (sign, digits, exponent) at the C07 width, fails only when it does not fit (None for the fallible conversions, never for the ones offered as From), specials map to ±inf and a "
-         "quiet payload-free NaN of the same sign, and converting back returns the identical bits.",
+         "quiet payload-free NaN of the same sign, and converting back returns the identical bits. Judged2.judgeGrammarReject_model(_fmt): the model never answers a grammatical string with a syntax-class error (the oracle's C06 wrongful-rejection rule). Judged2.judgeClassAgree_toInt/toFloat_model: the conversions act on the class the classifiers report (the oracle's C08 rule on to_<int>/to_f32/to_f64 of infinities and NaNs).",
          "ryu is an external crate: RyuContractWide is assumed, not proved; the harness passes ryu's text for the same float and the Lean oracle re-checks every clause of the contract on "
          "every request (evidence: assumed_contract_broken). str::parse is modelled as Spec.rneDecSafe, proved to be round-to-nearest-even (Proofs.Rne). Sweeps: from_f32→to_f32 gives back "
          "identical bits on every f32 bit pattern (thorough: all 2^32 for Bitstring32/64/Bitstring; quick: a strided tenth)."),
@@ -58,7 +58,7 @@ LEVEL = {
          "(Proofs.Rne: nearest among all finite patterns, ties to the even pattern, overflow exactly from (2^prec − 1/2)·2^(emax−prec+1), monotone; also stated over ℚ); that the real "
          "str::parse rounds that way is assumed and compared on every request incl. generated ties and, in the sweeps, against the Display text on all 2^32 Bitstring32 patterns (thorough)."),
  "C14": ("Theorems C14_frag, C14_fits, C14_fault, C14_swallow for every fragment list (empty fragments included), every capacity and all three buffer kinds: streaming = string parse of the "
-         "concatenation, or buffer-too-small only when the text is longer than the buffer; a failing or error-swallowing Display never yields a value.",
+         "concatenation, or buffer-too-small only when the text is longer than the buffer; a failing or error-swallowing Display never yields a value. Per run the answers of try_parse and try_parse_str are also compared with each other on every text that went through both.",
          "core::fmt's delivery of fragments is modelled by `feed`."),
  "C15": ("All codec theorems (C01, C02, C08, C09, C11, C13) are stated for an arbitrary type parameter T and depend on it only through capacity and satI32, so two types holding the same "
          "bytes / accepting the same numeral provably agree in the model; the per-run check additionally compares the implementation's answers pairwise across the five types.",
@@ -71,7 +71,7 @@ LEVEL = {
          "the per-run check extracts the facts from the implementation's message text.",
          "The message wording itself is outside the projection (facts are extracted by the pinned wording first, by keywords and the figures named otherwise)."),
  "C18": ("Theorems C18_fns, C18_decode_limits, C18_extremes, C18_exp: max()/min()/min_positive() are ±(10^p−1)·10^qmax and 10^qmin for every width; every finite pattern lies within and, "
-         "if non-zero, above (exact comparison after scaling by 10^bias); DIGITS-digit numerals are accepted exactly on [qmin, qmax].",
+         "if non-zero, above (exact comparison after scaling by 10^bias); DIGITS-digit numerals are accepted exactly on [qmin, qmax]. Judged2.judgeWithinLimits_model + leScaled_iff: the value every bit pattern of a fixed-width type prints lies within ±MAX and, if non-zero, at or above MIN_POSITIVE (exact comparison over Q).",
          "The byte constants MAX/MIN/MIN_POSITIVE/DIGITS/*_10_EXP are compared with the model's values by the `consts` request."),
 }
 
